@@ -63,7 +63,10 @@ if [ -f "$NV_FAULT_MARKER" ]; then
       /venv/bin/$tool "$@"
       exit 3
     fi
-    if [ "$tool" = "picosvg" ]; then
+    if [ "$tool" = "picosvg" ] && [ "$mode" = "wrong" ]; then
+      # dies after writing a complete, valid, WRONG output (what a step killed between two writes, or one fed a half-saved input, leaves)
+      for a in "$@"; do prev="$cur"; cur="$a"; if [ "$prev" = "--output_file" ]; then printf '<svg xmlns="http://www.w3.org/2000/svg" viewBox="0 0 100 100"><path d="M1,1 L9,1 L5,9 Z" fill="#010203"/></svg>' > "$a"; fi; done
+    elif [ "$tool" = "picosvg" ]; then
       for a in "$@"; do prev="$cur"; cur="$a"; if [ "$prev" = "--output_file" ]; then printf '<svg' > "$a"; fi; done
     else
       for a in "$@"; do last="$a"; done
@@ -114,8 +117,10 @@ def svg(i, variant=0):
 
 def bump(p: Path):
     """MonotoneMtime: make sure the edit is newer than anything the previous build logged"""
-    t = time.time() + 2
-    os.utime(p, (t, t))
+    # a natural "now" one clock tick later (not a time in the future: the outputs a step writes afterwards must be able to be NEWER than the
+    # edit, as they are for a user, or ninja's "output older than input" rule hides what its log comparison would have to catch)
+    time.sleep(0.03)
+    os.utime(p, None)
 
 
 def run_history(job):
@@ -185,7 +190,7 @@ def run_history(job):
                 ps = sorted(src.glob("*.svg"))
                 ps[0].write_text(ps[0].read_text() + " ")
                 bump(ps[0])
-                marker.write_text((ev[1] + ":trunc") if len(ev) > 1 else "x")
+                marker.write_text((ev[1] + ":trunc") if len(ev) > 1 and ev[1] != "wrong" else ("picosvg:wrong" if len(ev) > 1 else "x"))
                 rc, out = invoke()
                 marker.unlink()
                 log.append(("invoke-fault", rc))
@@ -395,6 +400,8 @@ SCRIPTED = [
     [("option", "color_format", "picosvg"), ("invoke",), ("option", "color_format", "glyf_colr_0")],
     [("invoke-fault",)],
     [("invoke-fault",), ("modify", 1, 2), ("invoke-fault",)],
+    [("invoke-fault", "wrong")],
+    [("modify", 0, 2), ("invoke-fault", "wrong"), ("invoke",)],
     [("driver-only",), ("modify", 2, 1)],
     [("rename-over", 0), ("invoke",), ("option", "upem", 2048)],
     [("option", "keep_glyph_names", True), ("invoke",), ("option", "keep_glyph_names", False), ("option", "reuse_tolerance", -1)],
@@ -405,7 +412,7 @@ def gen_history(rng):
     n = rng.randint(2, 5)
     evs = []
     for _ in range(n):
-        k = rng.choice(["modify", "add", "remove", "rename-over", "option", "invoke", "invoke-fault", "driver-only"])
+        k = rng.choice(["modify", "add", "remove", "rename-over", "option", "invoke", "invoke-fault", "invoke-fault-wrong", "driver-only"])
         if k == "modify":
             evs.append((k, rng.randint(0, 2), rng.randint(1, 3)))
         elif k in ("add", "remove", "rename-over"):
@@ -413,6 +420,8 @@ def gen_history(rng):
         elif k == "option":
             evs.append((k, *rng.choice([("color_format", "glyf_colr_0"), ("color_format", "picosvg"), ("color_format", "glyf"), ("upem", 2048), ("width", 900),
                                         ("reuse_tolerance", -1), ("keep_glyph_names", True), ("clip_to_viewbox", False), ("clipbox_quantization", 8)])))
+        elif k == "invoke-fault-wrong":
+            evs.append(("invoke-fault", "wrong"))
         else:
             evs.append((k,))
     return evs
